@@ -925,6 +925,8 @@ def features(uni: dict, hist: list) -> list:
         feats.append("gene_spans_origin")
     protos = [a for a in areas if a["kind"] == "proto"]
     subs = [a for a in areas if a["kind"] == "sub"]
+    if any(spans_origin(a["extent"]) for a in protos):
+        feats.append("protocluster_spans_origin")
     if any(_same_place(a, b) for i, a in enumerate(protos) for b in protos[i + 1:]):
         feats.append("equal_coordinate_protoclusters")
     if any(_same_place(a, b) for i, a in enumerate(subs) for b in subs[i + 1:]):
